@@ -21,9 +21,16 @@ Fixpoint nodup_b (l : list Z) : bool :=
 (* what the real iter_subclasses returned for class c *)
 Definition impl_itersub (c : Z) : list Z := match zlookup c ct_itersub with Some l => l | None => [] end.
 
-(* the model's iter_subclasses returns, for class c, what partitura's iter_subclasses returned *)
+Fixpoint count_z (x : Z) (l : list Z) : nat :=
+  match l with [] => O | y :: r => if x =? y then S (count_z x r) else count_z x r end.
+
+(* the model's iter_subclasses returns, for class c, the classes partitura's iter_subclasses returned, each as
+   often (the ORDER of the enumeration is not part of the property: results are compared per time point as
+   multisets, so a reordering refactoring of iter_subclasses is harmless) *)
+Definition same_counts_b (l1 l2 : list Z) : bool :=
+  forallb (fun d => Nat.eqb (count_z d l1) (count_z d l2)) (l1 ++ l2).
 Definition itersub_b (c : Z) : bool :=
-  match zlookup c ct_itersub with Some l => list_eqb Z.eqb l (iter_subclasses c) | None => false end.
+  match zlookup c ct_itersub with Some l => same_counts_b l (iter_subclasses c) | None => false end.
 
 (* l lists exactly the strict descendants of c, each once *)
 Definition closed_list_b (l : list Z) (c : Z) : bool :=
@@ -40,9 +47,6 @@ Definition cls_named (s : string) : option Z :=
 (* classes with two or more direct superclasses inside the tree (reached by more than one path) *)
 Definition n_parents (d : Z) : nat := List.length (filter (fun e => zmem d (snd e)) ct_subs).
 Definition multi_parent : list Z := filter (fun d => Nat.leb 2 (n_parents d)) classes.
-
-Fixpoint count_z (x : Z) (l : list Z) : nat :=
-  match l with [] => O | y :: r => if x =? y then S (count_z x r) else count_z x r end.
 
 (* every class c, every multiply-inherited strict descendant d of c: d occurs exactly once in l c *)
 Definition diamonds_once_b (l : Z -> list Z) : bool :=
